@@ -11,6 +11,8 @@ use crate::geo::{self, P2};
 use crate::{f32v, Cfg, Hasher, Json, Report, Rng};
 use re::math::color::{Color3f, Color4f};
 use re::math::vec::{Vec2, Vec3};
+use re::math::angle::Angle;
+use re::math::point::{Point2, Point3};
 
 fn cj<A: Attr>(p: &[[f32; 3]; 3], a: &[[f32; MAXC]; 3]) -> Json {
     Json::obj()
@@ -215,7 +217,7 @@ fn one<A: Attr>(rng: &mut Rng, rep: &mut Report, idx: u64) {
 }
 
 pub fn run(cfg: &Cfg, rep: &mut Report) {
-    rep.rule = "case = one screen triangle (C04's coordinate families, extent ≤ 64 px) with per-vertex reciprocal depth 1/w (w ratio ≤ 10:1, or all 1) and attributes of 7 types, every fragment judged; non-trivial = all (area ≤ 1e-6 px² inputs are skipped and counted); distinct by hash of all vertex words".into();
+    rep.rule = "case = one screen triangle (C04's coordinate families, extent ≤ 64 px) with per-vertex reciprocal depth 1/w (w ratio ≤ 10:1, or all 1) and attributes of 11 types (f32, Vec2, Vec3, Color3f, Color4f, Angle, Point3, tuples incl. nested and colour+point), every fragment judged; non-trivial = all (area ≤ 1e-6 px² inputs are skipped and counted); distinct by hash of all vertex words".into();
     rep.assumptions.push("value tolerance = 0.5 % of the vertex-value range + 1e-5·|max| (f32 rounding floor) + 0.001 px·|∇value| (the position tolerance C04 grants, first order); the NaN/inf clause has no slack".into());
 
     // pinned witness F1: lower half exactly one row high
@@ -249,15 +251,28 @@ pub fn run(cfg: &Cfg, rep: &mut Report) {
         rep.pin("F10.color_affine", r);
     }
 
+    {
+        // F22: Angle varyings were not divided by the interpolated 1/w
+        let p = [[0.0f32, 0.0, 0.227752], [3.0, 3.0, 0.7811276], [2.0, 0.0, 0.109943986]];
+        let a = [[0.08622687f32, 0., 0., 0., 0.], [0.72951454, 0., 0., 0., 0.], [0.12585533, 0., 0., 0., 0.]];
+        let mut r2 = Report::new();
+        judge::<Angle>(&mut r2, &p, &a);
+        rep.pin("F22.angle_affine", if r2.n_violations() == 0 { Ok(()) } else { Err(r2.violations.values().next().map(|v| v.firsts[0].detail.clone()).unwrap_or_default()) });
+    }
+
     let n = cfg.n(700_000, 70_000_000);
-    rep.run_stream(cfg, 0, "triangles", n, |rng, i, rep| match i % 7 {
+    rep.run_stream(cfg, 0, "triangles", n, |rng, i, rep| match i % 11 {
         0 => one::<f32>(rng, rep, i),
         1 => one::<Vec2>(rng, rep, i),
         2 => one::<Vec3>(rng, rep, i),
         3 => one::<Color4f>(rng, rep, i),
         4 => one::<Color3f>(rng, rep, i),
         5 => one::<(Vec2, f32)>(rng, rep, i),
-        _ => one::<(f32, Vec3)>(rng, rep, i),
+        6 => one::<(f32, Vec3)>(rng, rep, i),
+        7 => one::<Angle>(rng, rep, i),
+        8 => one::<Point3>(rng, rep, i),
+        9 => one::<((Vec2, f32), Vec2)>(rng, rep, i),
+        _ => one::<(Color3f, Point2)>(rng, rep, i),
     });
     rep.floor("fragments_judged", 20_000_000);
     rep.floor("shape.half_exactly_one_row_high", 2_000);
